@@ -217,6 +217,12 @@ func runC13(c *Ctx) {
 	c.Rule("R3", "id provenance: a keeper function with a consumerId parameter passes exactly that parameter to every per-consumer key constructor and to every keeper function with a consumerId parameter; functions without one (drivers, handlers) draw every id they pass from one accepted source per call site (message field, loop element of an all-consumers getter, id bound to a channel/client, fresh id, id parsed from a key, time-queue element)", 150)
 	runIdProvenance(c)
 
+	// ---- R6 ------------------------------------------------------------------------------------
+	c.Rule("R6", "accessor agreement (provider keeper): every function touching a key space directly belongs to that key space's accessor family (a swapped key constructor reads or writes another record family); key-constructor parameters receive the caller's parameter of the same name; setters store bytes derived from their value parameter under a key derived from their key parameters", 150)
+	checkAccessorAgreement(c, "pk")
+	checkKeyArgNames(c, "pk")
+	checkSetterValues(c, "pk", nil)
+
 	// ---- R4 ------------------------------------------------------------------------------------
 	c.Rule("R4", "failure isolation: the launch loop and the removal loop run each consumer on its own CacheContext created inside the loop body, committed only on success (details in C19.R1)", 4)
 	for _, spec := range []struct{ fn, op string }{{"pk.Keeper.BeginBlockLaunchConsumers", "pk.Keeper.LaunchConsumer"}, {"pk.Keeper.BeginBlockRemoveConsumers", "pk.Keeper.DeleteConsumerChain"}} {
@@ -225,7 +231,7 @@ func runC13(c *Ctx) {
 
 	// ---- R5 ------------------------------------------------------------------------------------
 	c.Rule("R5", "reverse-index pairing and injectivity: SetConsumerClientId/DeleteConsumerClientId keep consumer->client and client->consumer in step; SetConsumerChain writes both channel indexes for the same pair; a client is bound only when fresh (CreateClient) or when the reverse index shows no other consumer; time-queue removal only touches the slot after finding the id in it", 12)
-	checkBindingPairs(c)
+	checkBindingPairs(c, true)
 }
 
 func parseShape(s string) []Seg {
@@ -496,7 +502,7 @@ func checkCachedLoop(c *Ctx, fnSpec, opSpec string) {
 	}
 }
 
-func checkBindingPairs(c *Ctx) {
+func checkBindingPairs(c *Ctx, withQueues bool) {
 	ke := &keyEval{p: c.P}
 	// SetConsumerClientId: forward Set(consumer->client) and reverse Set(client->consumer) with swapped roles
 	if f := c.Fn("pk.Keeper.SetConsumerClientId"); f != nil {
@@ -579,7 +585,7 @@ func checkBindingPairs(c *Ctx) {
 		}
 	}
 	// shared time-queue slots: removal deletes/rewrites the slot only after the id was found in it
-	if f := c.Fn("pk.Keeper.removeConsumerIdFromTime"); f != nil {
+	if f := c.Fn("pk.Keeper.removeConsumerIdFromTime"); f != nil && withQueues {
 		notFound := Atom{"index == -1", cmpAtom(func(op token.Token, x, y ssa.Value) (bool, bool) {
 			if (op == token.EQL || op == token.NEQ) && (PConstInt(-1)(y) || PConstInt(-1)(x)) {
 				return true, op == token.EQL
